@@ -16,7 +16,8 @@ CONSTANTS
   StakingDelay = 86400
   VotingDelay = 86400
   MaxHeight = 2000000000
+  MaxDiscards = 1000000
   MaxOps = 1
-INVARIANTS TypeOK TotalIsSum Conservation TallyIsSumOfVotes VoteTotalIsSum VoteLeStake UnsetIsEmpty VprIsVotes RankingIsSorted NameWellFormed
+INVARIANTS TypeOK TotalIsSum Conservation TallyIsSumOfVotes VoteTotalIsSum VoteLeStake UnsetIsEmpty VprIsVotes RankingIsSorted NameWellFormed ParamMemEqualsState ParamsPositive
 POSTCONDITION TraceAccepted
 CHECK_DEADLOCK FALSE
